@@ -4,8 +4,10 @@ labels.
 -/
 import DimModel.Lib.Missing
 import DimModel.Proofs.Order
+import DimModel.Proofs.C17
 namespace DimModel
 open Lib
+open C17P
 
 /-! ### helpers -/
 
@@ -175,5 +177,761 @@ theorem dropna_mask_spec {α : Type} (isnan : α → Bool) (a : DimArray α) (k 
   have hr : (a.ndim == 1) = false := by simpa using hrank
   simp only [bind, Except.bind, hr, Bool.false_eq_true, if_false]
   cases minvalid <;> rfl
+
+/-! ## End-to-end statements about `sortAxis`, `compressAxis`, `dropna`, `fillna`, `setna`
+
+The common shape of the results is `SelectsSlices a r pos ps`: the result `r` is the input `a` with the
+slices along dimension `pos` selected / reordered by the list `ps` of source positions, every slice
+travelling with its label, nothing else touched. -/
+
+/-- Spec: `r` is `a` restricted / reordered along dimension `pos` by the source positions `ps`:
+result position `i` along `pos` carries the label **and** the whole slice that `a` has at position
+`ps[i]`. The other axes, the metadata of the axis (`name`, `kind`, `attrs`), the array metadata and the
+dtype kind are unchanged, and the result is well formed (its shape is the list of its axis sizes). -/
+structure SelectsSlices {α : Type} (a r : DimArray α) (pos : Nat) (ps : List Nat) : Prop where
+  /-- the result is a well-formed DimArray -/
+  wf : r.WF
+  /-- same number of dimensions -/
+  ndim : r.axes.length = a.axes.length
+  /-- the shape changes only at `pos`, where it becomes the number of selected positions -/
+  shape : r.vals.shape = a.vals.shape.set pos ps.length
+  /-- every other axis is the very same axis -/
+  others : ∀ i, i ≠ pos → r.axes[i]? = a.axes[i]?
+  /-- the axis at `pos`: same name, kind and attributes, one label per selected position, every selected
+  position is a valid position of the input axis, and the label at result position `i` is the
+  input label at `ps[i]` -/
+  axis : ∃ ax ax' : Axis, a.axes[pos]? = some ax ∧ r.axes[pos]? = some ax' ∧
+    ax'.name = ax.name ∧ ax'.kind = ax.kind ∧ ax'.attrs = ax.attrs ∧ ax'.members = [] ∧
+    ax'.labels.length = ps.length ∧ (∀ p ∈ ps, p < ax.labels.length) ∧
+    ∀ i p : Nat, ps[i]? = some p → ax'.labels[i]? = ax.labels[p]?
+  /-- the value equation: the cell at index `j` (coordinate `i` along `pos`) is the input cell at the
+  same index with the coordinate along `pos` replaced by `ps[i]` -/
+  value : ∀ (j : List Nat) (i p : Nat), j[pos]? = some i → ps[i]? = some p → r.vals.get j = a.vals.get (j.set pos p)
+  attrs : r.attrs = a.attrs
+  vkind : r.vkind = a.vkind
+
+/-- the value equation of `SelectsSlices` covers every in-range index of the result -/
+theorem SelectsSlices.covers {α : Type} {a r : DimArray α} {pos : Nat} {ps : List Nat}
+    (h : SelectsSlices a r pos ps) (hwf : a.WF) (j : List Nat) (hj : InRange r.vals.shape j) :
+    ∃ i p, j[pos]? = some i ∧ ps[i]? = some p := by
+  obtain ⟨ax, ax', hax, -⟩ := h.axis
+  have hlt : pos < a.vals.shape.length := by
+    rw [hwf.1, List.length_map]
+    rcases Nat.lt_or_ge pos a.axes.length with hl | hl
+    · exact hl
+    · rw [List.getElem?_eq_none hl] at hax; cases hax
+  have hs : r.vals.shape[pos]? = some ps.length := by
+    rw [h.shape, List.getElem?_set_self hlt]
+  obtain ⟨i, hi, hil⟩ := inRange_getElem? _ _ _ _ hj hs
+  exact ⟨i, ps[i], hi, List.getElem?_eq_getElem hil⟩
+
+/-- slice form of the value equation: the slice of the result at position `i` is, cell by cell, the
+slice of the input at position `ps[i]` -/
+theorem SelectsSlices.slice {α : Type} {a r : DimArray α} {pos : Nat} {ps : List Nat}
+    (h : SelectsSlices a r pos ps) (i p : Nat) (hp : ps[i]? = some p) (j : List Nat) (hj : pos ≤ j.length) :
+    r.vals.get (j.insertIdx pos i) = a.vals.get (j.insertIdx pos p) := by
+  have hlen : pos < (j.insertIdx pos i).length := by
+    rw [List.length_insertIdx_of_le_length hj]; omega
+  have hget : (j.insertIdx pos i)[pos]? = some i := by
+    rw [List.getElem?_eq_getElem hlen, List.getElem_insertIdx_self]
+  rw [h.value _ i p hget hp, set_eq_insertIdx_eraseIdx _ _ _ hlen, List.eraseIdx_insertIdx_self]
+
+/-- positional take with valid positions selects the slices -/
+theorem takeAxisPos_selects {α : Type} (a : DimArray α) (pos : Nat) (ps : List Nat) (ax : Axis)
+    (hwf : a.WF) (hax : a.axes[pos]? = some ax) (hps : ∀ p ∈ ps, p < ax.labels.length) :
+    SelectsSlices a (takeAxisPos a pos ps) pos ps := by
+  have hax' : (takeAxisPos a pos ps).axes[pos]? = some (axisTake ax ps) := by
+    rw [takeAxisPos_axes_getElem?, hax]; simp
+  refine ⟨takeAxisPos_wf a pos ps hwf, takeAxisPos_length a pos ps, rfl,
+    takeAxisPos_others a pos ps, ?_, takeAxisPos_value a pos ps, rfl, rfl⟩
+  obtain ⟨h1, h2, h3, h4, h5⟩ := takeAxisPos_axis_meta a pos ps ax _ hax hax'
+  refine ⟨ax, _, hax, hax', h1, h2, h3, h4, h5, hps, ?_⟩
+  intro i p hp
+  exact takeAxisPos_label a pos ps ax _ i p hax hax' hp (hps p (List.mem_of_getElem? hp))
+
+/-! ### `sort_axis` -/
+
+/-- Spec: `σ` is the stable ascending sorting permutation of the labels `L`: a permutation of the
+positions `0 .. L.length-1` such that the labels read through `σ` ascend and equal labels keep their
+original relative order -/
+def IsStableArgsort (L : List Label) (σ : List Nat) : Prop :=
+  σ.Perm (List.range L.length) ∧
+  ∀ (i j p q : Nat) (x y : Label), i < j → σ[i]? = some p → σ[j]? = some q → L[p]? = some x → L[q]? = some y →
+    Label.le x y = true ∧ (x = y → p < q)
+
+/-- `np.argsort(kind='stable')` as modelled is the stable sorting permutation -/
+theorem argsortBy_isStableArgsort (L : List Label) : IsStableArgsort L (argsortBy Label.le L) := by
+  refine ⟨argsortBy_perm _ _, ?_⟩
+  intro i j p q x y hij hp hq hx hy
+  have := argsortBy_stable Label.le Label.le_trans Label.le_total L i j p q x y hij hp hq hx hy
+  exact ⟨this.1, fun hxy => this.2 (by rw [hxy]; exact Label.le_refl y)⟩
+
+/-- the stable sorting permutation is unique: `IsStableArgsort` pins `σ` down completely -/
+theorem IsStableArgsort.unique {L : List Label} {σ τ : List Nat}
+    (hσ : IsStableArgsort L σ) (hτ : IsStableArgsort L τ) : σ = τ := by
+  let R : Nat → Nat → Prop := fun p q =>
+    ∀ x y, L[p]? = some x → L[q]? = some y → Label.le x y = true ∧ (x = y → p < q)
+  have hpw : ∀ ρ, IsStableArgsort L ρ → ρ.Pairwise R := by
+    intro ρ hρ
+    rw [List.pairwise_iff_getElem]
+    intro i j hi hj hij x y hx hy
+    exact hρ.2 i j _ _ x y hij (List.getElem?_eq_getElem hi) (List.getElem?_eq_getElem hj) hx hy
+  have hlt : ∀ ρ, IsStableArgsort L ρ → ∀ p ∈ ρ, p < L.length := by
+    intro ρ hρ p hp
+    simpa using hρ.1.mem_iff.mp hp
+  refine List.Perm.eq_of_pairwise (le := R) ?_ (hpw σ hσ) (hpw τ hτ) (hσ.1.trans hτ.1.symm)
+  intro p q hp hq hpq hqp
+  have hp' := hlt σ hσ p hp
+  have hq' := hlt τ hτ q hq
+  have h1 := hpq L[p] L[q] (List.getElem?_eq_getElem hp') (List.getElem?_eq_getElem hq')
+  have h2 := hqp L[q] L[p] (List.getElem?_eq_getElem hq') (List.getElem?_eq_getElem hp')
+  have he : L[p] = L[q] := Label.le_antisymm _ _ h1.1 h2.1
+  have := h1.2 he
+  have := h2.2 he.symm
+  omega
+
+/-- **`sort_axis`, end to end.** On a well-formed array, `sort_axis(axis)` succeeds exactly when the axis
+exists and then returns the input with the slices along that axis reordered by the stable ascending
+sorting permutation `σ` of the axis labels: result label `i` is input label `σ[i]` and result slice
+`i` is input slice `σ[i]` (value equation `r[j] = a[j with j[pos] := σ[j[pos]]]`), the other axes,
+the axis and array metadata and the dtype kind are unchanged, the result is well formed and (for a
+plain axis) has the same shape. Stability: equal labels keep their original relative order. -/
+theorem sortAxis_spec {α : Type} (a r : DimArray α) (k : DimKey) (pos : Nat) (ax : Axis)
+    (hwf : a.WF) (hpos : axisPos a.axes k = .ok pos) (hax : a.axes[pos]? = some ax)
+    (h : sortAxis a k = .ok r) :
+    ∃ σ, IsStableArgsort ax.labels σ ∧ SelectsSlices a r pos σ ∧
+      (ax.members = [] → r.vals.shape = a.vals.shape) := by
+  have hlt := axisPos_lt _ _ _ hpos
+  have hgetD : a.axes.getD pos default = ax := by
+    rw [List.getD_eq_getElem?_getD, hax]; rfl
+  have hr := sortAxis_eq a r k pos hpos h
+  rw [hgetD] at hr
+  subst hr
+  refine ⟨_, argsortBy_isStableArgsort ax.labels, ?_, ?_⟩
+  · exact takeAxisPos_selects a pos _ ax hwf hax (argsortBy_lt Label.le ax.labels)
+  · intro hplain
+    rw [takeAxisPos_shape, argsortBy_length, hwf.1]
+    apply List.ext_getElem?
+    intro i
+    rw [List.getElem?_set, List.getElem?_map]
+    by_cases hi : pos = i
+    · subst hi
+      rw [hax]
+      simp [hlt, Axis.size, hplain]
+    · simp [hi]
+
+/-- `sort_axis` raises exactly the error of the axis lookup (an unknown name, a position out of range) -/
+theorem sortAxis_ok_iff {α : Type} (a : DimArray α) (k : DimKey) :
+    (∃ r, sortAxis a k = .ok r) ↔ ∃ pos, axisPos a.axes k = .ok pos := by
+  unfold sortAxis
+  cases h : axisPos a.axes k with
+  | error e => simp [bind, Except.bind]
+  | ok pos => simp [bind, Except.bind, pure, Except.pure]
+
+private theorem take_range_labels (L : List Label) :
+    (List.range L.length).map (fun p => L.getD p Label.none) = L := by
+  apply List.ext_getElem?
+  intro i
+  rw [List.getElem?_map]
+  rcases Nat.lt_or_ge i L.length with hi | hi
+  · rw [List.getElem?_range hi]
+    simp [List.getD_eq_getElem?_getD, hi]
+  · rw [List.getElem?_eq_none (by simpa using hi), List.getElem?_eq_none hi]; rfl
+
+private theorem set_self_of_getElem? : ∀ (j : List Nat) (pos i : Nat), j[pos]? = some i → j.set pos i = j
+  | [], _, _, h => by simp at h
+  | x :: xs, 0, i, h => by
+    simp only [List.getElem?_cons_zero, Option.some.injEq] at h
+    subst h; rfl
+  | x :: xs, pos + 1, i, h => by
+    simp only [List.getElem?_cons_succ] at h
+    simp only [List.set_cons_succ, set_self_of_getElem? xs pos i h]
+
+/-- **sorting an axis that is already in ascending order changes nothing**: same axes, same shape, same
+metadata, same value at every in-range index -/
+theorem sortAxis_of_sorted {α : Type} (a r : DimArray α) (k : DimKey) (pos : Nat) (ax : Axis)
+    (hwf : a.WF) (hpos : axisPos a.axes k = .ok pos) (hax : a.axes[pos]? = some ax)
+    (hplain : ax.members = [])
+    (hsorted : ax.labels.Pairwise (fun x y => Label.le x y = true))
+    (h : sortAxis a k = .ok r) :
+    r.axes = a.axes ∧ r.vals.shape = a.vals.shape ∧ r.attrs = a.attrs ∧ r.vkind = a.vkind ∧
+      ∀ j, InRange a.vals.shape j → r.vals.get j = a.vals.get j := by
+  have hlt := axisPos_lt _ _ _ hpos
+  obtain ⟨σ, -, hsel, hshape⟩ := sortAxis_spec a r k pos ax hwf hpos hax h
+  have hgetD : a.axes.getD pos default = ax := by
+    rw [List.getD_eq_getElem?_getD, hax]; rfl
+  have hr := sortAxis_eq a r k pos hpos h
+  rw [hgetD, argsortBy_of_pairwise Label.le ax.labels hsorted] at hr
+  subst hr
+  refine ⟨?_, hshape hplain, rfl, rfl, ?_⟩
+  · apply List.ext_getElem?
+    intro i
+    rw [takeAxisPos_axes_getElem?]
+    by_cases hi : i = pos
+    · subst hi
+      rw [hax]
+      simp only [Option.map_some, if_true, Option.some.injEq]
+      cases ax with
+      | mk name labels kind attrs members =>
+        simp only at hplain
+        subst hplain
+        simp only [axisTake, take_range_labels]
+    · cases a.axes[i]? <;> simp [hi]
+  · intro j hj
+    have hs : a.vals.shape[pos]? = some ax.labels.length := by
+      rw [hwf.1, List.getElem?_map, hax]
+      simp [Axis.size, hplain]
+    obtain ⟨i, hi, hil⟩ := inRange_getElem? _ _ _ _ hj hs
+    rw [takeAxisPos_value a pos _ j i i hi (List.getElem?_range hil), set_self_of_getElem? j pos i hi]
+
+/-- **`sort_axis` is idempotent**: sorting the sorted array returns the same axes, shape, metadata and
+the same value at every in-range index -/
+theorem sortAxis_idempotent {α : Type} (a r r' : DimArray α) (k : DimKey) (pos : Nat) (ax : Axis)
+    (hwf : a.WF) (hpos : axisPos a.axes k = .ok pos) (hax : a.axes[pos]? = some ax)
+    (h : sortAxis a k = .ok r) (h' : sortAxis r k = .ok r') :
+    r'.axes = r.axes ∧ r'.vals.shape = r.vals.shape ∧ r'.attrs = r.attrs ∧ r'.vkind = r.vkind ∧
+      ∀ j, InRange r.vals.shape j → r'.vals.get j = r.vals.get j := by
+  have hlt := axisPos_lt _ _ _ hpos
+  obtain ⟨σ, -, hsel, -⟩ := sortAxis_spec a r k pos ax hwf hpos hax h
+  obtain ⟨ax0, ax', hax0, hax', -, -, -, hmem, -⟩ := hsel.axis
+  have hnames : r.axes.map (·.name) = a.axes.map (·.name) := by
+    rw [sortAxis_eq a r k pos hpos h]; exact takeAxisPos_names a pos _
+  have hpos' : axisPos r.axes k = .ok pos := by rw [axisPos_congr _ _ k hnames]; exact hpos
+  have hsorted := sortAxis_sorted a r k pos hpos hlt h
+  have hgetD : r.axes.getD pos default = ax' := by
+    rw [List.getD_eq_getElem?_getD, hax']; rfl
+  rw [hgetD] at hsorted
+  exact sortAxis_of_sorted r r' k pos ax' hsel.wf hpos' hax' hmem hsorted h'
+
+/-! ### `compress_axis` -/
+
+/-- **`compress_axis(mask, axis)`, end to end.** It succeeds exactly when the axis exists and the mask has
+one entry per label; the result is the input restricted along the axis to the positions where the mask
+is true, in ascending order: kept labels and kept slices are unchanged and stay paired (value equation
+through the list of kept positions), nothing else changes. -/
+theorem compressAxis_spec {α : Type} (a r : DimArray α) (mask : List Bool) (k : DimKey) (pos : Nat) (ax : Axis)
+    (hwf : a.WF) (hpos : axisPos a.axes k = .ok pos) (hax : a.axes[pos]? = some ax)
+    (hplain : ax.members = []) (h : compressAxis a mask k = .ok r) :
+    mask.length = ax.labels.length ∧
+    SelectsSlices a r pos ((List.range mask.length).filter (fun i => mask[i]? = some true)) := by
+  have hgetD : a.axes.getD pos default = ax := by
+    rw [List.getD_eq_getElem?_getD, hax]; rfl
+  obtain ⟨hr, hlen⟩ := compressAxis_eq_take a r mask k pos hpos h
+  rw [hgetD] at hlen
+  have hlen' : mask.length = ax.labels.length := by
+    rw [hlen]; simp [Axis.size, hplain]
+  refine ⟨hlen', ?_⟩
+  rw [hr, nonzero_eq_filter]
+  apply takeAxisPos_selects a pos _ ax hwf hax
+  intro p hp
+  have := (List.mem_filter.mp hp).1
+  rw [List.mem_range] at this
+  omega
+
+theorem compressAxis_ok_iff {α : Type} (a : DimArray α) (mask : List Bool) (k : DimKey) (pos : Nat) (ax : Axis)
+    (hpos : axisPos a.axes k = .ok pos) (hax : a.axes[pos]? = some ax) :
+    (∃ r, compressAxis a mask k = .ok r) ↔ mask.length = ax.size := by
+  have hgetD : a.axes.getD pos default = ax := by
+    rw [List.getD_eq_getElem?_getD, hax]; rfl
+  constructor
+  · rintro ⟨r, h⟩
+    have := (compressAxis_eq_take a r mask k pos hpos h).2
+    rwa [hgetD] at this
+  · intro h
+    exact compressAxis_ok a mask k pos hpos (by rw [hgetD]; exact h)
+
+/-- the kept positions of a mask: strictly ascending, and exactly the positions holding `true` -/
+theorem keptPositions_spec (mask : List Bool) :
+    ((List.range mask.length).filter (fun i => mask[i]? = some true)).Pairwise (· < ·) ∧
+    ∀ i, i ∈ (List.range mask.length).filter (fun i => mask[i]? = some true) ↔ mask[i]? = some true := by
+  rw [← nonzero_eq_filter]
+  exact ⟨nonzero_pairwise mask, fun i => mem_nonzero⟩
+
+/-! ### `dropna` -/
+
+/-- number of valid (non-NaN) cells in the slice at position `i` along dimension `pos` -/
+def validCount {α : Type} (isnan : α → Bool) (a : DimArray α) (pos i : Nat) : Nat :=
+  ((allIdx (a.vals.shape.eraseIdx pos)).filter fun j => !isnan (a.vals.get (j.insertIdx pos i))).length
+
+/-- Spec: does `dropna(axis, minvalid)` keep position `i`?  1-D: the cell is not NaN. N-D, default: the
+slice holds no NaN. N-D, `minvalid = m`: the slice holds at least `m` valid cells. -/
+def dropnaKeeps {α : Type} (isnan : α → Bool) (a : DimArray α) (pos : Nat) (minvalid : Option Nat) (i : Nat) : Bool :=
+  if a.ndim = 1 then !isnan (a.vals.get [i])
+  else match minvalid with
+    | none => (allIdx (a.vals.shape.eraseIdx pos)).all fun j => !isnan (a.vals.get (j.insertIdx pos i))
+    | some m => decide (m ≤ validCount isnan a pos i)
+
+/-- the enumeration in `dropnaKeeps` / `validCount` ranges over exactly the cells of the slice: the
+indices of the other dimensions, completed by `i` along `pos`, are in-range indices of the array -/
+theorem dropnaKeeps_none_iff {α : Type} (isnan : α → Bool) (a : DimArray α) (pos i : Nat) (hr : a.ndim ≠ 1) :
+    dropnaKeeps isnan a pos none i = true ↔
+      ∀ j, InRange (a.vals.shape.eraseIdx pos) j → isnan (a.vals.get (j.insertIdx pos i)) = false := by
+  unfold dropnaKeeps
+  simp only [if_neg hr]
+  rw [all_allIdx_iff]
+  constructor
+  · intro h j hj; simpa using h j hj
+  · intro h j hj; simpa using h j hj
+
+theorem slice_cell_inRange {α : Type} (a : DimArray α) (pos n i : Nat) (j : List Nat)
+    (hs : a.vals.shape[pos]? = some n) (hi : i < n) (hj : InRange (a.vals.shape.eraseIdx pos) j) :
+    InRange a.vals.shape (j.insertIdx pos i) :=
+  inRange_insertIdx _ _ _ _ _ hs hi hj
+
+private theorem dropna_mask_eq {α : Type} (isnan : α → Bool) (a : DimArray α) (pos : Nat) (minvalid : Option Nat) :
+    dropnaMaskFn isnan a pos minvalid =
+      dropnaKeeps isnan a pos minvalid := by
+  funext i
+  unfold dropnaKeeps dropnaMaskFn
+  by_cases hr : a.ndim = 1
+  · simp only [if_pos hr]
+  · simp only [if_neg hr]
+    cases minvalid with
+    | none => exact count_le_zero_iff _ _
+    | some m =>
+      simp only [validCount]
+      rw [← allIdx_length]
+      exact count_le_iff _ _ m
+
+/-- **`dropna(axis, minvalid)`, end to end.** On a well-formed array and an existing plain axis it always
+succeeds, and the result is the input restricted along the axis to the positions `i` with
+`dropnaKeeps … i` (enough valid cells in slice `i`), in their original order: kept labels and kept slices
+are unchanged and stay paired, nothing else changes. -/
+theorem dropna_spec {α : Type} (isnan : α → Bool) (a : DimArray α) (k : DimKey) (pos : Nat) (ax : Axis)
+    (minvalid : Option Nat)
+    (hwf : a.WF) (hpos : axisPos a.axes k = .ok pos) (hax : a.axes[pos]? = some ax)
+    (hplain : ax.members = []) :
+    ∃ r, dropna isnan a k minvalid = .ok r ∧
+      SelectsSlices a r pos ((List.range ax.labels.length).filter (dropnaKeeps isnan a pos minvalid)) := by
+  have hlt := axisPos_lt _ _ _ hpos
+  have hgetD : a.axes.getD pos default = ax := by
+    rw [List.getD_eq_getElem?_getD, hax]; rfl
+  have hsize : ax.size = ax.labels.length := by simp [Axis.size, hplain]
+  have hpp := axisPos_pos a.axes pos hlt
+  rw [dropna_eq_compress isnan a k pos minvalid hpos, dropna_mask_eq isnan a pos minvalid, hgetD, hsize]
+  obtain ⟨r, hr⟩ := compressAxis_ok a ((List.range ax.labels.length).map (dropnaKeeps isnan a pos minvalid))
+    (.pos pos) pos hpp (by rw [hgetD, hsize]; simp)
+  refine ⟨r, hr, ?_⟩
+  have hr' := (compressAxis_eq_take a r _ _ pos hpp hr).1
+  rw [nonzero_map_range] at hr'
+  rw [hr']
+  apply takeAxisPos_selects a pos _ ax hwf hax
+  intro p hp
+  exact List.mem_range.mp (List.mem_filter.mp hp).1
+
+/-- `dropna` raises exactly the error of the axis lookup -/
+theorem dropna_error {α : Type} (isnan : α → Bool) (a : DimArray α) (k : DimKey) (minvalid : Option Nat) (e : Err)
+    (hpos : axisPos a.axes k = .error e) : dropna isnan a k minvalid = .error e := by
+  unfold dropna
+  rw [hpos]; rfl
+
+/-- **1-D `dropna`**: the result lists exactly the non-NaN cells with their labels, in order; `minvalid` is
+ignored, as in the Python code -/
+theorem dropna_rank1 {α : Type} (isnan : α → Bool) (a r : DimArray α) (k : DimKey) (pos : Nat) (ax : Axis)
+    (minvalid : Option Nat)
+    (hwf : a.WF) (hpos : axisPos a.axes k = .ok pos) (hax : a.axes[pos]? = some ax)
+    (hplain : ax.members = []) (h1 : a.ndim = 1) (h : dropna isnan a k minvalid = .ok r) :
+    pos = 0 ∧
+    let kept := (List.range ax.labels.length).filter (fun i => !isnan (a.vals.get [i]))
+    SelectsSlices a r 0 kept ∧
+    (∀ i p, kept[i]? = some p → r.vals.get [i] = a.vals.get [p] ∧ isnan (r.vals.get [i]) = false) := by
+  have hlt := axisPos_lt _ _ _ hpos
+  have hp0 : pos = 0 := by unfold DimArray.ndim at h1; omega
+  subst hp0
+  obtain ⟨r0, hr0, hsel⟩ := dropna_spec isnan a k 0 ax minvalid hwf hpos hax hplain
+  rw [h] at hr0
+  injection hr0 with hr0
+  subst hr0
+  have hk : dropnaKeeps isnan a 0 minvalid = (fun i => !isnan (a.vals.get [i])) := by
+    funext i; unfold dropnaKeeps; simp only [if_pos h1]
+  rw [hk] at hsel
+  refine ⟨rfl, hsel, ?_⟩
+  intro i p hp
+  have hv : r.vals.get [i] = a.vals.get [p] := hsel.value [i] i p rfl hp
+  refine ⟨hv, ?_⟩
+  rw [hv]
+  have := (List.mem_filter.mp (List.mem_of_getElem? hp)).2
+  simpa using this
+
+/-- **default `dropna` leaves no NaN**: every in-range cell of the result is valid -/
+theorem dropna_no_nan {α : Type} (isnan : α → Bool) (a r : DimArray α) (k : DimKey) (pos : Nat) (ax : Axis)
+    (hwf : a.WF) (hpos : axisPos a.axes k = .ok pos) (hax : a.axes[pos]? = some ax)
+    (hplain : ax.members = []) (h : dropna isnan a k none = .ok r)
+    (j : List Nat) (hj : InRange r.vals.shape j) : isnan (r.vals.get j) = false := by
+  obtain ⟨r0, hr0, hsel⟩ := dropna_spec isnan a k pos ax none hwf hpos hax hplain
+  rw [h] at hr0
+  injection hr0 with hr0
+  subst hr0
+  obtain ⟨i, p, hi, hp⟩ := hsel.covers hwf j hj
+  rw [hsel.value j i p hi hp]
+  have hkeep := (List.mem_filter.mp (List.mem_of_getElem? hp)).2
+  have hjl : pos < j.length := by
+    rcases Nat.lt_or_ge pos j.length with hl | hl
+    · exact hl
+    · rw [List.getElem?_eq_none hl] at hi; cases hi
+  by_cases h1 : a.ndim = 1
+  · have hlt := axisPos_lt _ _ _ hpos
+    have hp0 : pos = 0 := by unfold DimArray.ndim at h1; omega
+    subst hp0
+    have hlen : j.length = 1 := by
+      have := inRange_length _ _ hj
+      rw [this, hsel.shape, List.length_set, hwf.1, List.length_map]
+      exact h1
+    have hjeq : j.set 0 p = [p] := by
+      match j, hlen with
+      | [x], _ => rfl
+    rw [hjeq]
+    unfold dropnaKeeps at hkeep
+    simp only [if_pos h1] at hkeep
+    simpa using hkeep
+  · rw [dropnaKeeps_none_iff isnan a pos p h1] at hkeep
+    rw [set_eq_insertIdx_eraseIdx j pos p hjl]
+    apply hkeep
+    have := inRange_eraseIdx _ _ pos hj
+    rw [hsel.shape, List.eraseIdx_set_eq] at this
+    exact this
+
+/-! ### `fillna` / `setna` laws -/
+
+/-- after `fillna` with a non-NaN value no cell is NaN -/
+theorem fillna_no_nan {α : Type} (isnan : α → Bool) (a : DimArray α) (fill : α) (fk : Kind)
+    (hfill : isnan fill = false) (j : List Nat) :
+    isnan ((fillna isnan a fill fk).vals.get j) = false := by
+  show isnan (if isnan (a.vals.get j) then fill else a.vals.get j) = false
+  cases h : isnan (a.vals.get j)
+  · simp [h]
+  · simp [hfill]
+
+private theorem maybeCastKind_idem (k fk : Kind) : maybeCastKind (maybeCastKind k fk) fk = maybeCastKind k fk := by
+  cases k <;> cases fk <;> rfl
+
+/-- `fillna` is idempotent (values, axes, metadata and dtype kind) -/
+theorem fillna_idempotent {α : Type} (isnan : α → Bool) (a : DimArray α) (fill : α) (fk : Kind) :
+    (∀ j, (fillna isnan (fillna isnan a fill fk) fill fk).vals.get j = (fillna isnan a fill fk).vals.get j) ∧
+    (fillna isnan (fillna isnan a fill fk) fill fk).vals.shape = (fillna isnan a fill fk).vals.shape ∧
+    (fillna isnan (fillna isnan a fill fk) fill fk).axes = (fillna isnan a fill fk).axes ∧
+    (fillna isnan (fillna isnan a fill fk) fill fk).attrs = (fillna isnan a fill fk).attrs ∧
+    (fillna isnan (fillna isnan a fill fk) fill fk).vkind = (fillna isnan a fill fk).vkind := by
+  refine ⟨?_, rfl, rfl, rfl, maybeCastKind_idem _ _⟩
+  intro j
+  show (if isnan (if isnan (a.vals.get j) then fill else a.vals.get j) then fill
+      else (if isnan (a.vals.get j) then fill else a.vals.get j)) = (if isnan (a.vals.get j) then fill else a.vals.get j)
+  cases h : isnan (a.vals.get j)
+  · simp [h]
+  · simp
+
+/-- `fillna` on an array without NaN changes no value -/
+theorem fillna_of_no_nan {α : Type} (isnan : α → Bool) (a : DimArray α) (fill : α) (fk : Kind) (j : List Nat)
+    (h : isnan (a.vals.get j) = false) : (fillna isnan a fill fk).vals.get j = a.vals.get j := by
+  show (if isnan (a.vals.get j) then fill else a.vals.get j) = _
+  simp [h]
+
+/-- after `setna` the NaN cells are exactly the hit cells and the former NaN cells -/
+theorem setna_isnan {α : Type} (isnan : α → Bool) (hit : List Nat → Bool) (nan : α) (a : DimArray α)
+    (hnan : isnan nan = true) (j : List Nat) :
+    isnan ((setna hit nan a).vals.get j) = (hit j || isnan (a.vals.get j)) := by
+  show isnan (if hit j then nan else a.vals.get j) = _
+  cases h : hit j <;> simp [hnan]
+
+/-- `setna` then `fillna v`: `v` is written exactly at the hit cells and at the former NaN cells, every
+other cell keeps its value -/
+theorem setna_fillna {α : Type} (isnan : α → Bool) (hit : List Nat → Bool) (nan : α) (a : DimArray α)
+    (fill : α) (fk : Kind) (hnan : isnan nan = true) (j : List Nat) :
+    (fillna isnan (setna hit nan a) fill fk).vals.get j =
+      (if hit j || isnan (a.vals.get j) then fill else a.vals.get j) := by
+  show (if isnan (if hit j then nan else a.vals.get j) then fill else (if hit j then nan else a.vals.get j)) = _
+  cases h : hit j
+  · simp
+  · simp [hnan]
+
+/-- `fillna` then `setna` is the identity when the cells hit by `setna` are exactly the cells that were
+NaN (e.g. `a.fillna(-99).setna(-99)` when `-99` occurs nowhere else) and NaN has a single
+representation -/
+theorem fillna_setna_inverse {α : Type} (isnan : α → Bool) (hit : List Nat → Bool) (nan : α) (a : DimArray α)
+    (fill : α) (fk : Kind) (hnan : ∀ x, isnan x = true → x = nan)
+    (hhit : ∀ j, hit j = isnan (a.vals.get j)) (j : List Nat) :
+    (setna hit nan (fillna isnan a fill fk)).vals.get j = a.vals.get j := by
+  show (if hit j then nan else (if isnan (a.vals.get j) then fill else a.vals.get j)) = _
+  rw [hhit j]
+  cases h : isnan (a.vals.get j)
+  · simp
+  · simp [hnan _ h]
+
+/-! ### `take_axis` (top-level mirror `Lib.takeAxis`) -/
+
+/-- **`take_axis(indices, axis, indexing='position')`, end to end.** When it succeeds every requested index is
+an integer, resolved NumPy-style (`mode='raise'`: `q ≥ 0` is position `q`, `q < 0` is position `n + q`;
+`mode='clip'`: clipped into `0 .. n-1`) to a valid position, and the result selects exactly those slices,
+in the requested order (repeats allowed), each with its label. -/
+theorem takeAxis_position_spec {α : Type} (a r : DimArray α) (ix : List Label) (k : DimKey) (pos : Nat) (ax : Axis)
+    (clip : Bool) (hwf : a.WF) (hpos : axisPos a.axes k = .ok pos) (hax : a.axes[pos]? = some ax)
+    (hplain : ax.members = []) (h : takeAxis a ix k .position clip = .ok r) :
+    ∃ ps, SelectsSlices a r pos ps ∧ ps.length = ix.length ∧
+      ∀ (i : Nat) (l : Label), ix[i]? = some l → ∃ (q : Rat) (p : Nat), l = Label.num q ∧ q.den = 1 ∧ ps[i]? = some p ∧
+        (clip = false → (0 ≤ q.num → (p : Int) = q.num) ∧ (q.num < 0 → (p : Int) = q.num + ax.labels.length)) ∧
+        (clip = true → (q.num < 0 → p = 0) ∧ (q.num ≥ ax.labels.length → p = ax.labels.length - 1) ∧
+          (0 ≤ q.num → q.num < ax.labels.length → (p : Int) = q.num)) := by
+  have hgetD : a.axes.getD pos default = ax := by
+    rw [List.getD_eq_getElem?_getD, hax]; rfl
+  have hsize : ax.size = ax.labels.length := by simp [Axis.size, hplain]
+  unfold takeAxis at h
+  rw [hpos] at h
+  simp only [bind, Except.bind, hgetD, hsize] at h
+  generalize hm : List.mapM (m := Except Err) (β := Nat) _ ix = res at h
+  rw [mapM_congr_fun (g := posOne ax.labels.length clip) ix (fun l => by cases l <;> rfl)] at hm
+  cases res with
+  | error e => cases h
+  | ok ps =>
+    simp only at h
+    split at h
+    · cases h
+    · rename_i hn
+      injection h with h
+      subst h
+      have hpt : ∀ (i : Nat) (l : Label), ix[i]? = some l → ∃ p : Nat, ps[i]? = some p ∧ posOne ax.labels.length clip l = .ok p :=
+        fun i l hl => mapM_ok_getElem? _ ix ps hm i l hl
+      have hlen := mapM_ok_length _ ix ps hm
+      have hlt : ∀ p ∈ ps, p < ax.labels.length := by
+        intro p hp
+        obtain ⟨i, hi, rfl⟩ := List.getElem_of_mem hp
+        have hi' : i < ix.length := hlen ▸ hi
+        obtain ⟨p', hp', hok⟩ := hpt i ix[i] (List.getElem?_eq_getElem hi')
+        rw [List.getElem?_eq_getElem hi] at hp'
+        injection hp' with hp'
+        rw [← hp'] at hok
+        obtain ⟨q, -, -, hraise, hclip⟩ := posOne_ok _ _ _ _ hok
+        cases clip with
+        | false => exact (hraise rfl).1
+        | true =>
+          have hne : ps ≠ [] := List.ne_nil_of_length_pos (by omega)
+          have hn0 : ax.labels.length ≠ 0 := by
+            intro h0
+            apply hn
+            simp [h0, hne]
+          obtain ⟨h1, h2, h3⟩ := hclip rfl
+          by_cases hneg : q.num < 0
+          · have := h1 hneg; omega
+          · by_cases hge : q.num ≥ (ax.labels.length : Int)
+            · have := h2 hge; omega
+            · have := h3 (by omega) (by omega); omega
+      refine ⟨ps, takeAxisPos_selects a pos ps ax hwf hax hlt, hlen, ?_⟩
+      intro i l hl
+      obtain ⟨p, hp, hok⟩ := hpt i l hl
+      obtain ⟨q, hq, hden, hraise, hclip⟩ := posOne_ok _ _ _ _ hok
+      exact ⟨q, p, hq, hden, hp, fun hc => (hraise hc).2, hclip⟩
+
+/-- **`take_axis(labels, axis)` (label indexing, `mode='raise'`), end to end.** When it succeeds, every
+requested label is present on the axis, the result selects the slice at a position holding that label, in
+the requested order (repeats allowed), and the labels of the resulting axis are exactly the requested
+labels. -/
+theorem takeAxis_label_spec {α : Type} (a r : DimArray α) (ix : List Label) (k : DimKey) (pos : Nat) (ax : Axis)
+    (hwf : a.WF) (hpos : axisPos a.axes k = .ok pos) (hax : a.axes[pos]? = some ax)
+    (h : takeAxis a ix k .label false = .ok r) :
+    ∃ ps, SelectsSlices a r pos ps ∧ ps.length = ix.length ∧
+      (∀ (i : Nat) (l : Label), ix[i]? = some l → ∃ p : Nat, ps[i]? = some p ∧ ax.labels[p]? = some l) ∧
+      ∃ ax', r.axes[pos]? = some ax' ∧ ax'.labels = ix := by
+  have hgetD : a.axes.getD pos default = ax := by
+    rw [List.getD_eq_getElem?_getD, hax]; rfl
+  unfold takeAxis at h
+  rw [hpos] at h
+  simp only [bind, Except.bind, hgetD] at h
+  cases hloc : loc ax.labels ax.kind (.list ix) none false with
+  | error e => rw [hloc] at h; cases h
+  | ok raw =>
+    rw [hloc] at h
+    obtain ⟨hraw, hemp, hall⟩ := loc_list_ok _ _ _ _ hloc
+    subst hraw
+    simp only [pure, Except.pure] at h
+    split at h
+    · cases h
+    · injection h with h
+      subst h
+      have hps : (List.map Int.ofNat (locateMany ax.labels ix Side.left)).map Int.toNat =
+          locateMany ax.labels ix Side.left := by
+        rw [List.map_map]
+        conv => rhs; rw [← List.map_id (locateMany ax.labels ix Side.left)]
+        apply List.map_congr_left
+        intro x _
+        simp
+      rw [hps]
+      have hlen : (locateMany ax.labels ix Side.left).length = ix.length := by
+        unfold locateMany; simp
+      have hlt : ∀ p ∈ locateMany ax.labels ix Side.left, p < ax.labels.length := by
+        intro p hp
+        by_cases hL : ax.labels = []
+        · have := hemp hL
+          subst this
+          simp [locateMany] at hp
+        · exact locateMany_lt _ _ _ hL p hp
+      have hsel := takeAxisPos_selects a pos _ ax hwf hax hlt
+      have hpt : ∀ (i : Nat) (l : Label), ix[i]? = some l →
+          ∃ p : Nat, (locateMany ax.labels ix Side.left)[i]? = some p ∧ ax.labels[p]? = some l := by
+        intro i l hl
+        have hi : i < (locateMany ax.labels ix Side.left).length := by
+          rw [hlen]
+          rcases Nat.lt_or_ge i ix.length with hh | hh
+          · exact hh
+          · rw [List.getElem?_eq_none hh] at hl; cases hl
+        refine ⟨_, List.getElem?_eq_getElem hi, ?_⟩
+        have hp := hall i _ l (List.getElem?_eq_getElem hi) hl
+        have hpl := hlt _ (List.getElem_mem hi)
+        rw [List.getD_eq_getElem?_getD, List.getElem?_eq_getElem hpl] at hp
+        rw [List.getElem?_eq_getElem hpl]
+        exact congrArg some hp
+      refine ⟨_, hsel, hlen, hpt, ?_⟩
+      obtain ⟨ax0, ax', hax0, hax', -, -, -, -, hl', -, hlab⟩ := hsel.axis
+      refine ⟨ax', hax', ?_⟩
+      rw [hax] at hax0
+      injection hax0 with hax0
+      subst hax0
+      apply List.ext_getElem?
+      intro i
+      rcases Nat.lt_or_ge i ix.length with hi | hi
+      · obtain ⟨p, hp, hpl⟩ := hpt i ix[i] (List.getElem?_eq_getElem hi)
+        rw [hlab i p hp, hpl, List.getElem?_eq_getElem hi]
+      · rw [List.getElem?_eq_none hi, List.getElem?_eq_none (by omega)]
+
+/-- `take_axis(labels, axis)` succeeds when every requested label is on the (plain) axis; together with
+`takeAxis_label_spec` (success implies every requested label is on the axis): it succeeds exactly then -/
+theorem takeAxis_label_ok {α : Type} (a : DimArray α) (ix : List Label) (k : DimKey) (pos : Nat) (ax : Axis)
+    (hpos : axisPos a.axes k = .ok pos) (hax : a.axes[pos]? = some ax) (hplain : ax.members = [])
+    (hmem : ∀ l ∈ ix, l ∈ ax.labels) :
+    ∃ r, takeAxis a ix k .label false = .ok r := by
+  have hgetD : a.axes.getD pos default = ax := by
+    rw [List.getD_eq_getElem?_getD, hax]; rfl
+  have hsize : ax.size = ax.labels.length := by simp [Axis.size, hplain]
+  have hloc : loc ax.labels ax.kind (.list ix) none false =
+      .ok (.ints ((locateMany ax.labels ix .left).map Int.ofNat)) := by
+    unfold loc
+    have htol : (if ax.kind.isNumeric = true then (none : Option Tol) else none) = none := by split <;> rfl
+    simp only [htol, Bool.false_eq_true, if_false]
+    have h1 : (ax.labels.isEmpty && !ix.isEmpty) = false := by
+      cases hL : ax.labels with
+      | nil =>
+        cases hix : ix with
+        | nil => rfl
+        | cons l ls =>
+          have := hmem l (by rw [hix]; simp)
+          rw [hL] at this; cases this
+      | cons x xs => rfl
+    have h2 : ((locateMany ax.labels ix Side.left).zip ix).all
+        (fun (p, v) => ax.labels.getD p Label.none == v) = true := by
+      rw [List.all_eq_true]
+      rintro ⟨p, v⟩ hpv
+      obtain ⟨i, hi⟩ := List.mem_iff_getElem?.mp hpv
+      rw [List.getElem?_zip_eq_some] at hi
+      obtain ⟨hp, hv⟩ := hi
+      unfold locateMany at hp
+      rw [List.getElem?_map, hv] at hp
+      simp only [Option.map_some, Option.some.injEq, searchSide] at hp
+      have hfound := locateRaw_found Label.le Label.le_trans Label.le_total Label.le_antisymm
+        ax.labels v (hmem v (List.mem_of_getElem? hv))
+      rw [← label_lt_eq, hp] at hfound
+      simp [List.getD_eq_getElem?_getD, hfound]
+    simp only [h1, Bool.false_eq_true, if_false, h2, if_true]
+  unfold takeAxis
+  rw [hpos]
+  simp only [bind, Except.bind, hgetD, hloc, pure, Except.pure, hsize]
+  have h3 : (ax.labels.length == 0 &&
+      !(List.map Int.toNat (List.map Int.ofNat (locateMany ax.labels ix Side.left))).isEmpty) = false := by
+    cases hix : ix with
+    | nil => simp [locateMany]
+    | cons l ls =>
+      have := hmem l (by rw [hix]; simp)
+      have : ax.labels.length ≠ 0 := by
+        intro h0
+        rw [List.length_eq_zero_iff.mp h0] at this
+        cases this
+      simp [this]
+  simp only [h3, Bool.false_eq_true, if_false]
+  exact ⟨_, rfl⟩
+
+/-! ### the hypotheses are satisfiable: a concrete 3 x 2 array with a repeated label and NaN cells -/
+
+namespace C17Ex
+
+def exX : Axis := { name := "x", labels := [.num 2, .num 0, .num 2], kind := .i }
+def exY : Axis := { name := "y", labels := [.str "b", .str "a"], kind := .U }
+/-- cells are `Option Nat`, `none` standing for NaN:  [[10, nan], [30, 40], [nan, nan]] -/
+def exA : DimArray (Option Nat) :=
+  { axes := [exX, exY], vals := NDArr.ofFlat [3, 2] [some 10, none, some 30, some 40, none, none], vkind := .f }
+def isnanO : Option Nat → Bool := Option.isNone
+
+theorem exA_wf : exA.WF := by
+  simp [DimArray.WF, exA, exX, exY, NDArr.ofFlat, Axis.size]
+
+theorem exA_pos : axisPos exA.axes (.name "x") = .ok 0 := by
+  simp [axisPos, exA, exX, exY]
+
+theorem exA_pos1 : axisPos exA.axes (.pos (-1)) = .ok 1 := by
+  simp [axisPos, exA]
+
+/-- `sortAxis_spec` applies -/
+example : ∃ r σ, sortAxis exA (.name "x") = .ok r ∧ IsStableArgsort exX.labels σ ∧ SelectsSlices exA r 0 σ ∧
+    r.vals.shape = exA.vals.shape := by
+  obtain ⟨r, hr⟩ := (sortAxis_ok_iff exA (.name "x")).mpr ⟨0, exA_pos⟩
+  obtain ⟨σ, h1, h2, h3⟩ := sortAxis_spec exA r (.name "x") 0 exX exA_wf exA_pos rfl hr
+  exact ⟨r, σ, hr, h1, h2, h3 rfl⟩
+
+/-- the stable sorting permutation of the labels `[2, 0, 2]` is `[1, 0, 2]`: the two labels `2` keep their
+order -/
+example : IsStableArgsort exX.labels [1, 0, 2] := by
+  refine ⟨by decide, ?_⟩
+  intro i j p q x y hij hp hq hx hy
+  have hj : j < 3 := by
+    rcases Nat.lt_or_ge j 3 with h | h
+    · exact h
+    · rw [List.getElem?_eq_none (by simpa using h)] at hq; cases hq
+  have : (i = 0 ∧ j = 1) ∨ (i = 0 ∧ j = 2) ∨ (i = 1 ∧ j = 2) := by omega
+  rcases this with ⟨rfl, rfl⟩ | ⟨rfl, rfl⟩ | ⟨rfl, rfl⟩ <;>
+    simp only [List.getElem?_cons_zero, List.getElem?_cons_succ, Option.some.injEq] at hp hq <;>
+    subst hp hq <;> simp [exX] at hx hy <;> subst hx hy <;> simp [Label.le] <;> decide
+
+/-- `sortAxis_idempotent` applies -/
+example : ∃ r r', sortAxis exA (.name "x") = .ok r ∧ sortAxis r (.name "x") = .ok r' ∧ r'.axes = r.axes := by
+  obtain ⟨r, hr⟩ := (sortAxis_ok_iff exA (.name "x")).mpr ⟨0, exA_pos⟩
+  have hnames : r.axes.map (·.name) = exA.axes.map (·.name) := by
+    rw [sortAxis_eq exA r _ 0 exA_pos hr]; exact takeAxisPos_names exA 0 _
+  obtain ⟨r', hr'⟩ := (sortAxis_ok_iff r (.name "x")).mpr ⟨0, by rw [axisPos_congr _ _ _ hnames]; exact exA_pos⟩
+  exact ⟨r, r', hr, hr', (sortAxis_idempotent exA r r' _ 0 exX exA_wf exA_pos rfl hr hr').1⟩
+
+/-- `compressAxis_spec` applies: mask `[true, false, true]` along `x` keeps positions `[0, 2]` -/
+example : ∃ r, compressAxis exA [true, false, true] (.name "x") = .ok r ∧ SelectsSlices exA r 0 [0, 2] := by
+  obtain ⟨r, hr⟩ := (compressAxis_ok_iff exA [true, false, true] (.name "x") 0 exX exA_pos rfl).mpr rfl
+  exact ⟨r, hr, (compressAxis_spec exA r _ _ 0 exX exA_wf exA_pos rfl rfl hr).2⟩
+
+/-- `dropna_spec` applies: along `x` with the default `minvalid` only the slice at position 1 is NaN-free -/
+example : ∃ r, dropna isnanO exA (.name "x") none = .ok r ∧ SelectsSlices exA r 0 [1] :=
+  dropna_spec isnanO exA (.name "x") 0 exX none exA_wf exA_pos rfl rfl
+
+/-- ... with `minvalid = 1` the slices at positions 0 and 1 are kept -/
+example : ∃ r, dropna isnanO exA (.name "x") (some 1) = .ok r ∧ SelectsSlices exA r 0 [0, 1] :=
+  dropna_spec isnanO exA (.name "x") 0 exX (some 1) exA_wf exA_pos rfl rfl
+
+/-- ... and along `y` (last axis) no column is NaN-free -/
+example : ∃ r, dropna isnanO exA (.pos (-1)) none = .ok r ∧ SelectsSlices exA r 1 [] :=
+  dropna_spec isnanO exA (.pos (-1)) 1 exY none exA_wf exA_pos1 rfl rfl
+
+/-- `takeAxis_position_spec` applies: positions `[2, -3, 2]` along `x` (a repeat and a negative index) -/
+example : ∃ r, takeAxis exA [.num 2, .num (-3), .num 2] (.name "x") .position false = .ok r ∧
+    SelectsSlices exA r 0 [2, 0, 2] := by
+  have h : takeAxis exA [.num 2, .num (-3), .num 2] (.name "x") .position false =
+      .ok (takeAxisPos exA 0 [2, 0, 2]) := by
+    unfold takeAxis
+    rw [exA_pos]
+    rfl
+  exact ⟨_, h, takeAxisPos_selects exA 0 _ exX exA_wf rfl (by decide)⟩
+
+/-- `takeAxis_label_spec` applies: labels `["a", "b", "a"]` along `y` -/
+example : ∃ r, takeAxis exA [.str "a", .str "b", .str "a"] (.pos 1) .label false = .ok r ∧
+    ∃ ax', r.axes[1]? = some ax' ∧ ax'.labels = [.str "a", .str "b", .str "a"] := by
+  have hp : axisPos exA.axes (.pos 1) = .ok 1 := by simp [axisPos, exA]
+  have h : ∃ r, takeAxis exA [.str "a", .str "b", .str "a"] (.pos 1) .label false = .ok r :=
+    takeAxis_label_ok exA _ (.pos 1) 1 exY hp rfl rfl (by simp [exY])
+  obtain ⟨r, hr⟩ := h
+  obtain ⟨ps, -, -, -, h4⟩ := takeAxis_label_spec exA r _ (.pos 1) 1 exY exA_wf hp rfl hr
+  exact ⟨r, hr, h4⟩
+
+end C17Ex
 
 end DimModel
